@@ -31,6 +31,7 @@ type c16Route struct {
 	Addr  uint32     `json:"addr"`
 	Len   int        `json:"len"`
 	Path  []c03Seg   `json:"path"`
+	Local bool       `json:"local"` // locally originated / API-injected route: the source has no local AS (0)
 }
 
 type c16Case struct {
@@ -105,8 +106,9 @@ func drawC16(t *rapid.T) c16Case {
 		case 4:
 			rt.Path = []c03Seg{{T: 2, AS: []uint32{100}}, {T: 4, AS: []uint32{65010, 65011}}}
 		default:
-			rt.Path = []c03Seg{{T: 2, AS: []uint32{300, 400, rapid.SampledFrom([]uint32{100, 100, 200, 65000, 4200000000, 7}).Draw(t, l+"o")}}}
+			rt.Path = []c03Seg{{T: 2, AS: []uint32{300, 400, rapid.SampledFrom([]uint32{100, 100, 200, 65000, 4200000000, 7, 0}).Draw(t, l+"o")}}}
 		}
+		rt.Local = rapid.IntRange(0, 4).Draw(t, l+"local") == 0
 		c.Routes = append(c.Routes, rt)
 	}
 	return c
@@ -115,17 +117,21 @@ func drawC16(t *rapid.T) c16Case {
 // reference: RFC 6811 section 2
 func c16Reference(roas []c16ROA, alive []bool, rt c16Route) (oc.RpkiValidationResultType, int, int) {
 	n := len(rt.Path)
+	own := uint32(c16LocalAS)
+	if rt.Local {
+		own = 0
+	}
 	var origin uint32
 	switch {
 	case n == 0:
-		origin = c16LocalAS
+		origin = own
 	default:
 		last := rt.Path[n-1]
 		switch last.T {
 		case 2:
 			origin = last.AS[len(last.AS)-1]
 		case 3, 4:
-			origin = c16LocalAS
+			origin = own
 		default: // AS_SET: origin cannot be determined
 			return oc.RPKI_VALIDATION_RESULT_TYPE_NOT_FOUND, 0, 0
 		}
@@ -201,7 +207,11 @@ func runC16(c c16Case, st *verifkit.Stats) *verifkit.Failure {
 			params = append(params, bgp.NewAs4PathParam(s.T, append([]uint32(nil), s.AS...)))
 		}
 		attrs := []bgp.PathAttributeInterface{bgp.NewPathAttributeOrigin(0), bgp.NewPathAttributeAsPath(params)}
-		path := NewPath(fam, src, bgp.PathNLRI{NLRI: nlri}, false, attrs, time.Unix(1, 0), false)
+		psrc := src
+		if r.Local {
+			psrc = &PeerInfo{AS: c16LocalAS, LocalID: netip.MustParseAddr("192.0.2.254")}
+		}
+		path := NewPath(fam, psrc, bgp.PathNLRI{NLRI: nlri}, false, attrs, time.Unix(1, 0), false)
 		v := rt.Validate(path)
 		want, covering, matching := c16Reference(c.ROAs, alive, r)
 		st.SubEval(1)
